@@ -65,7 +65,7 @@ class Job:
         self.assumptions = set()
         self.bounds = {}
         self.solver_s = 0.0
-        self.timeout = 60 if tier == "quick" else 300
+        self.timeout = 120 if tier == "quick" else 600
 
     # ---- bookkeeping
     def encoded(self, module, *qualnames):
@@ -235,7 +235,8 @@ def run_check(pid, modname, tier, seed, level_note=""):
     mod = importlib.import_module(modname)
     jobs = mod.jobs(tier)
     nproc = int(os.environ.get("BBVERIF_PROCS", "0")) or min(16, os.cpu_count() or 1, max(1, len(jobs)))
-    args = [(modname, i, pid, tier, seed) for i in range(len(jobs))]
+    only = os.environ.get("BBVERIF_JOBS")
+    args = [(modname, i, pid, tier, seed) for i in range(len(jobs)) if not only or only in jobs[i][0]]
     if nproc == 1 or len(jobs) == 1:
         results = [_run_job(a) for a in args]
     else:
